@@ -80,6 +80,8 @@ pub enum St {
     Nested,
     Parked(Point),
     Gone,
+    /// the collector cycle panicked (the collector thread is gone)
+    Panicked,
 }
 
 struct Slot {
@@ -846,7 +848,13 @@ impl Orch {
                 WID.with(|w| w.set(COLLECTOR));
                 sh.post(COLLECTOR, St::Idle, None);
                 while let Ok(_) = rx.recv() {
-                    verif::run_collector_cycle();
+                    // a panic inside the cycle (what flush() would re-raise in its caller, and what
+                    // kills the background thread) is an observation, not a harness failure
+                    let r = catch_unwind(AssertUnwindSafe(|| verif::run_collector_cycle()));
+                    if r.is_err() {
+                        sh.post(COLLECTOR, St::Panicked, None);
+                        break;
+                    }
                     sh.post(COLLECTOR, St::Idle, None);
                 }
                 WID.with(|w| w.set(usize::MAX));
@@ -939,7 +947,10 @@ impl Orch {
     pub fn cycle_begin(&mut self) -> (St, Option<String>) {
         self.shared.mark_running(COLLECTOR);
         self.collector_tx.as_ref().unwrap().send(1).unwrap();
-        let (st, _) = self.shared.settle(COLLECTOR);
+        let (st, r) = self.shared.settle(COLLECTOR);
+        if st == St::Panicked {
+            return (st, r);
+        }
         assert_eq!(st, St::Parked(Point::DrainBegin), "collector did not park at DrainBegin");
         self.release(COLLECTOR)
     }
